@@ -30,9 +30,10 @@ pub(crate) trait CKKSNegDefault<BE: Backend> {
     {
         let offset = dst.offset_unary(src);
         if offset != 0 {
+            let log_budget = checked_log_budget_sub("neg", src.log_budget(), offset)?;
             self.glwe_lsh(dst, src, offset, scratch);
             dst.meta = src.meta();
-            dst.meta.log_budget = checked_log_budget_sub("neg", src.log_budget(), offset)?;
+            dst.meta.log_budget = log_budget;
             self.glwe_negate_assign(dst);
         } else {
             self.glwe_negate(dst, src);
